@@ -3,12 +3,17 @@ import gin
 from vf import rt
 from vf import world
 
-PLACE = ['{R}', '[{R}, 1]', "{{'k': ({R},)}}", '[{R}, [{R}]]', "({R}, {{'a': [{R}]}})"]
-NREF = [1, 1, 1, 2, 2]
+PLACE = ['{R}', '[{R}, 1]', "{{'k': ({R},)}}", '[{R}, [{R}]]', "({R}, {{'a': [{R}]}})",
+         # no reference at all: mutable containers inside a top-level tuple / dict / list
+         "('adam', [1, 2, 3], {{'k': [4]}})", "{{'t': ([5], 6)}}", '[[7, [8]], (9,)]']
+NREF = [1, 1, 1, 2, 2, 0, 0, 0]
+PLAIN = {5: ('adam', [1, 2, 3], {'k': [4]}), 6: {'t': ([5], 6)}, 7: [[7, [8]], (9,)]}
 RSCOPE = ['', 'r1', 'r1/r2']
 
 
 def delivered(place, p):
+  if place >= 5:
+    return []
   if place == 0:
     return [p]
   if place == 1:
@@ -22,6 +27,9 @@ def delivered(place, p):
 
 def shape_ok(place, p):
   with rt.native():
+    if place >= 5:
+      from vf.spec import literal
+      return literal.same_value(p, PLAIN[place])
     if place == 1:
       return isinstance(p, list) and len(p) == 2 and p[1] == 1
     if place == 2:
@@ -48,16 +56,27 @@ def mutate(place, p):
     elif place == 4:
       p[1]['a'].append('junk')
       p[1]['z'] = 'junk'
+    elif place == 5:
+      p[1].append('junk')
+      p[2]['k'].append('junk')
+      p[2]['new'] = 'junk'
+    elif place == 6:
+      p['t'][0].append('junk')
+      p['zz'] = 'junk'
+    elif place == 7:
+      p[0][1].append('junk')
+      p[0].append('junk')
+      p.append('junk')
 
 
 def c04_refs(place: int, evaluate: bool, rscope: int, amb: bool, mp: int, mq: int,
              ncalls: int, mut: bool, v0: int, v1: int, v2: int, va: int, w0: int,
              cp: int, cq: int) -> bool:
   """
-  pre: 0 <= place < 5 and 0 <= rscope < 3 and 0 <= mp < 3 and 0 <= mq < 2 and 1 <= ncalls <= 3
+  pre: 0 <= place < 8 and 0 <= rscope < 3 and 0 <= mp < 3 and 0 <= mq < 2 and 1 <= ncalls <= 3
   """
   world.fresh()
-  place = rt.pick(place, 5)
+  place = rt.pick(place, 8)
   evaluate = rt.flag(evaluate)
   rscope = rt.pick(rscope, 3)
   amb = rt.flag(amb)
@@ -167,6 +186,9 @@ def c04_refs(place: int, evaluate: bool, rscope: int, amb: bool, mp: int, mq: in
     if gin.config_str() != cfg_before:
       return False
     stored = gin.query_parameter('vw.cons.p')
+    if place >= 5:
+      gb = gin.get_bindings('vw.cons')['p']
+      return (shape_ok(place, stored) and shape_ok(place, gb)) or rt.no('stored value changed by the consumer')
     if place == 0:
       return isinstance(stored, gin.config.ConfigurableReference)
     return shape_ok(place, stored)
@@ -181,12 +203,12 @@ HARNESSES = {
                     v0=1, v1=2, v2=3, va=4, w0=5, cp=6, cq=7),
                dict(place=2, evaluate=False, rscope=0, amb=True, mp=0, mq=1, ncalls=1, mut=False,
                     v0=1, v1=2, v2=3, va=4, w0=5, cp=6, cq=7)],
-        tiers={'quick': dict(split=dict(place=list(range(5)), rscope=[0, 1, 2], mp=[0, 1, 2]),
+        tiers={'quick': dict(split=dict(place=list(range(8)), rscope=[0, 1, 2], mp=[0, 1, 2]),
                              fixed=dict(ncalls=2), budget_s=100),
-               'thorough': dict(split=dict(place=list(range(5)), rscope=[0, 1, 2], mp=[0, 1, 2],
+               'thorough': dict(split=dict(place=list(range(8)), rscope=[0, 1, 2], mp=[0, 1, 2],
                                            ncalls=[1, 2, 3]), budget_s=300)},
         bounds='5 placements of one or two references (top level, list, tuple in dict, nested list, dict in '
-               'tuple), evaluated or not, reference scope none/r1/r1/r2, ambient scope none/amb, parameter p '
+               'tuple) + 3 reference-free values with mutable containers inside a tuple / dict / list, evaluated or not, reference scope none/r1/r1/r2, ambient scope none/amb, parameter p '
                'omitted/positional/keyword, parameter q omitted/keyword, 1-3 calls with or without the '
                'consumer mutating what it got; source values: all ints (through constants)'),
 }
